@@ -264,7 +264,7 @@ func init() {
 		Rule: "generated edit histories (ways over nodes, relations over node/way/relation members; 1-6 parent versions, 1-8 children with repeats, 1-10(+1) versions per child; " +
 			"edits before/between/after/at the instant of parent versions and at window edges; deletions, undeletions, children entering and leaving, deleted parent versions; " +
 			"commit-time regime and timestamp regime with thresholds {0,1s,30s,30min(default or explicit),2h}; in 40% of the histories the timestamps / commit times are expressed in mixed time.Locations (UTC, fixed zones, same offset with another name, offset 0 that is not UTC, Local) without changing the instants; options IgnoreInconsistency, IgnoreMissingChildren, ChildFilter with pre-annotated input) " +
-			"40% of the histories are re-expressed with millisecond / nanosecond fractions (child and parent edits inside one second in both orders, 1 tick apart, exactly together; time-travel instants with fractions), plus an enumerated sub-second family (child edit 0, +-1 tick, earlier/later in the same second as a parent version), "+
+			"40% of the histories are re-expressed with millisecond / nanosecond fractions (child and parent edits inside one second in both orders, 1 tick apart, exactly together; time-travel instants with fractions), plus an enumerated sub-second family (child edit 0, +-1 tick, earlier/later in the same second as a parent version), " +
 			"plus an enumerated family of same-instant bursts (n versions in one second x child at 1-3 indices) and corner inputs (empty history, failing datasource, mixed regimes: run only). " +
 			"Each history is annotated once; oracles: base child and update set per (parent version, index) against the reference (exact for the commit regime and for well-separated windows, acceptable-set otherwise), " +
 			"error class justified by the history, untouched references (deleted parents, filtered, missing), and time travel: ApplyUpdatesUpTo(t) on a clone for sampled t in [T_i, T_i+1 - eps) compared with the version in effect at t. " +
